@@ -266,7 +266,9 @@ def run_bus(case):
                 rejections += 1
                 continue
             if res is not None:
-                return bad(res[0], res[1] + " | history=%r" % (good,), key="bus-" + res[0], cls=sorted(cls))
+                return bad(res[0], res[1] + " | history=%r" % (good,),
+                           key="bus-linker-slave-overlap" if (case.get("allow_linker_slave") and res[0] == "decoder-double") else "bus-" + res[0],
+                           cls=sorted(cls))
             finalized += 1
             continue
         # alloc_region() scans in steps of the requested size: bound the scan (DESIGN C13) - an op that
@@ -281,6 +283,12 @@ def run_bus(case):
             if span // max(1, asz) > (1 << 17):
                 cls.add("alloc-scan-too-long-not-run")
                 continue
+        if op[0] == "slave" and op[2] == "named" and op[1] in bus.regions and bus.regions[op[1]].linker and not case.get("allow_linker_slave"):
+            # known finding bus-linker-slave-overlap (first seen by the thorough tier): regions flagged linker=True are exempt
+            # from the overlap test, yet a slave can be bound to one (add_ethernet does) and is then decoded: on top of
+            # another slave both decoders select the same addresses.  Excluded by construction, witness replayed.
+            cls.add("slave-on-linker-region-not-run")
+            continue
         try:
             info = _apply_bus(bus, op, good)
         except _rejections() as e:
